@@ -169,7 +169,7 @@ pick_colliding_uids(void)
 }
 
 /* ---------------- events ---------------- */
-enum {E_ADD, E_CANCEL, E_TICK_ONTIME, E_TICK_IDLE, E_TICK_LATE, E_EXIT, E_LIST, E_SCHED, E_ADDOWN, E_ADD2, E_TICK_EXACT, E_TICK_FAIL};
+enum {E_ADD, E_CANCEL, E_TICK_ONTIME, E_TICK_IDLE, E_TICK_LATE, E_EXIT, E_LIST, E_SCHED, E_ADDOWN, E_ADD2, E_TICK_EXACT, E_TICK_FAIL, E_STOP};
 struct ev_s {
 	int kind;
 	int user;	/* index into users[] */
@@ -241,6 +241,7 @@ evname(char *buf, size_t bsz, const struct ev_s *e)
 	case E_TICK_FAIL: snprintf(buf, bsz, "TICK(on-time, %s)", e->arg ? "posix_spawn() fails with EAGAIN" : "pipe() fails with EMFILE"); break;
 	case E_TICK_LATE: snprintf(buf, bsz, "TICK(late-%d)", e->arg); break;
 	case E_EXIT: snprintf(buf, bsz, "EXIT(%d)", e->arg); break;
+	case E_STOP: snprintf(buf, bsz, "STOP+CONT(%d)", e->arg); break;
 	case E_LIST: snprintf(buf, bsz, "LIST(%u%s)", users[e->user], e->arg == 1 ? " as other" : ""); break;
 	case E_SCHED: snprintf(buf, bsz, "SCHED(%u)", users[e->user]); break;
 	}
@@ -250,7 +251,7 @@ evname(char *buf, size_t bsz, const struct ev_s *e)
 static const char*
 evkind(const struct ev_s *e)
 {
-	static const char *const k[] = {"ADD", "CANCEL", "TICK-ontime", "TICK-idle", "TICK-late", "EXIT", "LIST", "SCHED", "ADDOWN", "ADD2", "TICK-exact", "TICK-spawnfail"};
+	static const char *const k[] = {"ADD", "CANCEL", "TICK-ontime", "TICK-idle", "TICK-late", "EXIT", "LIST", "SCHED", "ADDOWN", "ADD2", "TICK-exact", "TICK-spawnfail", "STOP"};
 	return k[e->kind];
 }
 
@@ -263,7 +264,7 @@ enabled(struct ev_s *ev, int max)
 {
 	int n = 0;
 	const int nusers = prop == 11 ? 2 : 1;
-	const int nuids = prop == 11 ? 3 : (collide && prop == 4) ? 3 : (narrow == 1 && prop == 4) ? 1 : 2;
+	const int nuids = prop == 11 ? 3 : (collide && (prop == 4 || prop == 12)) ? 3 : (narrow == 1 && prop == 4) ? 1 : 2;
 
 #define PUSH(...)	do { if (n < max) ev[n++] = (struct ev_s){__VA_ARGS__}; } while (0)
 	/* clock events first: they are the simplest */
@@ -311,6 +312,8 @@ enabled(struct ev_s *ev, int max)
 		int dup = 0;
 		for (int j = 0; j < i; j++) dup |= !strcmp(M.chld[j].uid, M.chld[i].uid) && M.chld[j].gen == M.chld[i].gen;
 		if (!dup || prop == 12) PUSH(E_EXIT, 0, 0, i);
+		/* deviation: the job is stopped and continued (job control, a debugger); it is still running */
+		if (!dup && prop == 12) PUSH(E_STOP, 0, 0, i);
 	}
 	/* commands */
 	for (int u = 0; u < nusers; u++) {
@@ -328,6 +331,9 @@ enabled(struct ev_s *ev, int max)
 				PUSH(E_ADD, u, k, 2);
 			} else if (prop == 4) {
 				for (int tp = 0; tp < 5; tp++) PUSH(E_ADD, u, k, tp);
+			} else if (prop == 12 && collide) {
+				/* three UIDs whose hashes force the table-growth path: limits 2, 1 and none */
+				PUSH(E_ADD, u, k, k == 0 ? 6 : k == 1 ? 5 : 7);
 			} else if (prop == 12 && narrow) {
 				/* X = uid A with limit 2, Y = uid B with limit 1, on-time wake-ups only */
 				PUSH(E_ADD, u, k, k == 0 ? 6 : 5);
@@ -706,6 +712,22 @@ apply(const struct ev_s *e)
 		hx_pipe_fail = hx_spawn_fail = 0;
 		break;
 	}
+	case E_STOP: {
+		/* which watched child is that */
+		const int pid = M.chld[e->arg].pid;
+		for (int q = 0; q < hx_nchld; q++) {
+			if (hx_chld[q]->pid == pid) {
+				hx_stop_child(q, 0);
+				/* the watcher may be gone now (that is the defect); continue only if it is still there */
+				for (int q2 = 0; q2 < hx_nchld; q2++) {
+					if (hx_chld[q2]->pid == pid) { hx_stop_child(q2, 1); break; }
+				}
+				break;
+			}
+		}
+		/* model: nothing changes */
+		break;
+	}
 	case E_EXIT: {
 		/* the daemon's child list is in spawn order like the model's */
 		int ci = e->arg;
@@ -1003,6 +1025,42 @@ sweep_limit(int N)
 	VT->traces++;
 }
 
+/* C04 linear history: one task with N occurrences a minute apart is followed to its end, every job ends before
+ * the next occurrence; exactly one real start per occurrence, the task is gone afterwards */
+static void
+long_series(long N)
+{
+	char req[1024], st0[32], shape[64];
+	struct hx_reply_s rp;
+	size_t o;
+
+	snprintf(hist, sizeof(hist), "ADD(A, MINUTELY x%ld) then %ld on-time ticks, each job exits before the next", N, N);
+	vd_desc("%s", hist);
+	snprintf(shape, sizeof(shape), "long-series/N=%ld", N);
+	o = (size_t)snprintf(req, sizeof(req), "BEGIN:VCALENDAR\nVERSION:2.0\nMETHOD:PUBLISH\nBEGIN:VEVENT\nUID:A\nSUMMARY:job\nDTSTART:%s\nRRULE:FREQ=MINUTELY;COUNT=%ld\nEND:VEVENT\nEND:VCALENDAR\n",
+			     (tpl_stamp(st0, sizeof(st0), HX_T0 + 60), st0), N);
+	hx_request(&rp, 1000, req, o);
+	if (rp.nsucc != 1) { report("reply", shape, "task refused"); return; }
+	for (long k = 1; k <= N; k++) {
+		const long before = hx_spawn_total;
+		if (!(k & 0x3ff)) vd_beat();
+		hx_nspawns = 0;		/* only the running total matters here */
+		hx_tick(HX_T0 + 60.0 * (double)k + 0.5);
+		VT->transitions++;
+		if (hx_spawn_total != before + 1 || hx_last_nd) {
+			report("spawn-count", shape, "occurrence %ld of %ld came due: %ld executions were started%s", k, N, hx_spawn_total - before, hx_last_nd ? " (with the no-run flag)" : "");
+			return;
+		}
+		if (hx_nchld != 1) { report("run-unsupervised", shape, "occurrence %ld: the daemon watches %d jobs", k, hx_nchld); return; }
+		hx_exit_child(0, 0);
+	}
+	{
+		struct hx_task_s obs[HX_MAXTASKS];
+		if (hx_observe(obs)) { report("task-lingers", shape, "after its %ld occurrences and the exit of the last job the task is still in the table", N); return; }
+	}
+	VT->traces++;
+}
+
 /* C11 linear histories with many requests / many UIDs (what the bounded exploration cannot reach by depth) */
 static int
 busy_add(unsigned u, const char *uid)
@@ -1100,6 +1158,47 @@ busy_mode(int variant)
 		if (!busy_file_has(1000, "n-%d", 16, &nl, miss, sizeof(miss)) && variant == 0) {
 			report("queue-file", shape, "user 1000's queue file holds %d UIDs, %s is missing", nl, miss[0] ? miss : "none");
 			return;
+		}
+	} else if (variant == 5) {
+		/* long replies: one request with 44 instructions is answered by more than 4096 octets; the first UID grows
+		 * by one character per round so that every line of the reply ends on every offset of the writer's buffer
+		 * once; every instruction must find its own status line in the reply */
+		static char req[8192];
+		snprintf(shape, sizeof(shape), "busy/long-replies");
+		for (int round = 0; round < 128; round++) {
+			char pad[140];
+			memset(pad, 'p', (size_t)round);
+			pad[round] = '\0';
+			for (int phase = 0; phase < 2; phase++) {
+				size_t o = (size_t)snprintf(req, sizeof(req), "BEGIN:VCALENDAR\nVERSION:2.0\nMETHOD:%s\n", phase ? "CANCEL" : "PUBLISH");
+				char st0[32];
+				tpl_stamp(st0, sizeof(st0), HX_T0 + 3600);
+				for (int j = 0; j < 44; j++) {
+					if (phase) o += (size_t)snprintf(req + o, sizeof(req) - o, "BEGIN:VEVENT\nUID:u%03d-%03d%s\nEND:VEVENT\n", round, j, j ? "" : pad);
+					else o += (size_t)snprintf(req + o, sizeof(req) - o, "BEGIN:VEVENT\nUID:u%03d-%03d%s\nSUMMARY:job\nDTSTART:%s\nEND:VEVENT\n", round, j, j ? "" : pad, st0);
+				}
+				o += (size_t)snprintf(req + o, sizeof(req) - o, "END:VCALENDAR\n");
+				snprintf(hist, sizeof(hist), "round %d: one request with 44 ADDs (first UID %d characters long), then one with the 44 CANCELs", round, 8 + round);
+				vd_desc("%s", hist);
+				hx_request(&rp, 1000, req, o);
+				VT->transitions++;
+				if (strlen(rp.buf) != rp.len) {
+					report("reply", shape, "the reply to 44 %s instructions holds a NUL octet at offset %zu of %zu", phase ? "CANCEL" : "ADD", strlen(rp.buf), rp.len);
+					return;
+				}
+				if (rp.nsucc != 44 || rp.nfail != 0) {
+					report("reply", shape, "44 %s instructions: %d success / %d failure replies", phase ? "CANCEL" : "ADD", rp.nsucc, rp.nfail);
+					return;
+				}
+				for (int j = 0; j < 44; j++) {
+					char pat[200];
+					snprintf(pat, sizeof(pat), "\nUID:u%03d-%03d%s\n", round, j, j ? "" : pad);
+					if (strstr(rp.buf, pat) == NULL) {
+						report("reply-uid", shape, "the reply to 44 %s instructions does not name instruction %d's UID", phase ? "CANCEL" : "ADD", j + 1);
+						return;
+					}
+				}
+			}
 		}
 	} else if (variant == 4) {
 		/* many clients at once: K connections are open at the same time, each has sent the first half of its
@@ -1387,6 +1486,33 @@ enumerate(void)
 	hx_drift = strtod(vd_opt("drift", "0"), NULL);
 	narrow = !strcmp(vd_opt("alpha", "full"), "narrow") ? 1 : !strcmp(vd_opt("alpha", "full"), "narrow2") ? 2 : 0;
 	if (collide) narrow = narrow ? narrow : 1;
+	if (!strcmp(vd_opt("mode", "explore"), "long")) {
+		static const long NS[] = {65535, 65536, 65537, 200};
+		for (size_t q = 0; q < sizeof(NS) / sizeof(*NS); q++) {
+			if (!vd_next()) continue;
+			vd_shape("long-series");
+			memset(VT, 0, sizeof(*VT));
+			fflush(stdout);
+			pid_t c = fork();
+			if (c == 0) {
+				prctl(PR_SET_PDEATHSIG, SIGKILL);
+				long_series(NS[q]);
+				fflush(stdout);
+				_exit(0);
+			}
+			int st;
+			while (waitpid(c, &st, 0) < 0 && errno == EINTR);
+			if (!(WIFEXITED(st) && WEXITSTATUS(st) == 0)) {
+				vd_viol("crash/long-series", "daemon image died following a series of %ld occurrences (status %#x)", NS[q], st);
+			}
+			vd_count("states", VT->transitions + 1);
+			vd_count("transitions", VT->transitions);
+			vd_count("traces", VT->traces);
+			vd_nontrivial();
+			vd_sample("series of %ld occurrences followed to its end", NS[q]);
+		}
+		return;
+	}
 	if (!strcmp(vd_opt("mode", "explore"), "busy")) {
 		const int nvar = (int)vd_opt_l("variants", 3);
 		const int skip = (int)vd_opt_l("skip", -1);	/* the 1500-UID history is thorough only */
